@@ -52,6 +52,10 @@ type Thread struct {
 	// functions).
 	goFunctionCallDepth int
 
+	// Depth of nested calls from Go code into Lua (see Call()): metamethods
+	// and callbacks run in a nested RunContinuation, which uses Go stack.
+	luaReentryDepth int
+
 	DebugHooks
 
 	closeStack // Stack of pending to-be-closed values
